@@ -355,13 +355,19 @@ def run_tree(req):
         co.send(None)
     except BaseException as ex:
         return {"harness_error": "holder failed to start: %r (root=%r)" % (ex, root)}
-    with warnings.catch_warnings(record=True) as w:
-        warnings.simplefilter("always")
-        try:
-            st = extract(co)
-        except BaseException as ex:
-            obs.append({"kind": "raised", "exc": repr(ex)})
-            st = None
+    from stackscope.lowlevel import set_trickery_enabled
+    if req.get("referents"):
+        set_trickery_enabled(False)
+    try:
+        with warnings.catch_warnings(record=True) as w:
+            warnings.simplefilter("always")
+            try:
+                st = extract(co)
+            except BaseException as ex:
+                obs.append({"kind": "raised", "exc": repr(ex)})
+                st = None
+    finally:
+        set_trickery_enabled(None)
     for x in w:
         obs.append({"kind": "warning", "msg": str(x.message)[:200]})
     if st is not None:
